@@ -119,7 +119,8 @@ def trace_family(pid, tier, work, mc, jobs, level_note, rule, extra_cov=None, wo
             raise C.Violation(note, rp)
         if not j.accepted:
             note = explain_reject(j, work)
-            rp = C.save_replay(pid, [j.trace, os.path.join(work, j.name + ".script.json")], note + "\nfocus=" + j.focus + " module=" + j.module)
+            rp = C.save_replay(pid, [j.trace, os.path.join(work, j.name + ".script.json")], note + "\nfocus=" + j.focus + " module=" + j.module,
+                               meta={"module": j.module, "cfg": j.cfg, "focus": j.focus, "trace": os.path.basename(j.trace)})
             write(pid, tier, mcs, ntraces, nlines, classes, samples, rule, level_note, t0, extra_cov, violations=1)
             raise C.Violation(note, rp)
         ntraces += summarize_trace(j.trace, classes, samples)
@@ -386,7 +387,7 @@ def table_check(pid, tier, work, module, cfg, runs, rule, assumptions, mc=(), ex
                 note = "table %s is not complete: the driver did not execute every case of the specification's table" % name
                 raise C.Machinery(note)
             note = explain_reject(job, work)
-            rp = C.save_replay(pid, [tp], note + "\nmodule=" + module)
+            rp = C.save_replay(pid, [tp], note + "\nmodule=" + module, meta={"module": module, "cfg": cfg, "focus": "all", "trace": os.path.basename(tp)})
             write(pid, tier, mcs, 0, nlines, classes, samples, rule, assumptions, t0, {"exhaustive": True}, violations=1)
             raise C.Violation(note, rp)
         with open(tp) as f:
@@ -552,7 +553,7 @@ def event_check(pid, tier, work, module, cfg, mc, runs, rule, assumptions, race_
             raise C.Violation("the race detector reported a data race during %s:\n%s" % (j.name, j.race_text), rp)
         if not j.accepted:
             note = explain_reject(j, work)
-            rp = C.save_replay(pid, [j.trace], note)
+            rp = C.save_replay(pid, [j.trace], note, meta={"module": j.module, "cfg": j.cfg, "focus": j.focus, "trace": os.path.basename(j.trace)})
             write(pid, tier, mcs, ntr, nlines, classes, samples, rule, assumptions, t0, None, violations=1)
             raise C.Violation(note, rp)
         ntr += 1
